@@ -138,6 +138,7 @@ Fail(ok, name) == IF ok THEN {} ELSE {name}
 C19 == Fail(CacheSound, "C19.CacheSound")
        \cup Fail(NeverUnverified, "C19.NeverUnverified")
        \cup Fail(OfflineWhenCached, "C19.OfflineWhenCached")
+       \cup Fail(ServedWhenCached, "C19.ServedWhenCached")
        \cup Fail(RetryBound, "C19.RetryBound")
        \cup Fail(NoCrossTalk, "C19.NoCrossTalk")
        \cup Fail(ProbeDone, "C19.LaterLoadSucceeds")
